@@ -309,7 +309,26 @@ class GroupedType(BaseDataType):
 
 
     def __setitem__(self, idx, value):
-        self._avps[idx] = value
+        if not isinstance(value, DiameterAVP):
+            raise DiameterAvpError(f"cannot assign a data type of "\
+                                   f"'{type(value)}'")
+
+        idx = range(len(self._avps))[idx]
+        old_avp = self._avps[idx]
+
+        for avp_key, item in list(self.__dict__.items()):
+            if item is old_avp:
+                self.pop(avp_key)
+                break
+        else:
+            del self._avps[idx]
+
+        self.append(value)
+        self._avps.insert(idx, self._avps.pop())
+
+        self._data = b""
+        for avp in self._avps:
+            self._data += avp.dump()
 
 
     def append(self, avp):
